@@ -24,6 +24,25 @@ CLAIMS = {
         "CR/LF and refuses any text containing CR or LF. Correspondence: real client::make_command on exhaustive small alphabets, injection "
         "strings and random byte strings (client-level wire check to be added with the client harness).",
    note="This registered part covers the command-building step; the per-call wire-level check is added by the client-level stage.", ref="DESIGN.md section 7 C09"),
+ "C05": dict(
+   text="Theorems for every byte string and every chunking: ascii_istream model (internal buffer >= 1, any short-read pattern of the source, "
+        "any caller buffer sizes) emits exactly the whole-string substitution CR LF|CR|LF -> CR LF and its read loop terminates; "
+        "ascii_ostream model for every partition into writes + flush emits exactly CR LF -> LF (final CR delivered by flush); LF-only text "
+        "round-trips. Correspondence: real converters on all strings over {CR,LF,x} up to a bound x chunkings, random long inputs.",
+   note="POSIX branch only. End-to-end TYPE A transfers are exercised by the client-level stages of C03/C04 when built.", ref="DESIGN.md section 7 C05"),
+ "C06": dict(
+   text="Theorems for all texts: a 229 reply yields a port iff it has the form pre ( d d d digits d ) post with one delimiter in 33..126 and "
+        "the port is the decimal value written (< 65536); a 227 reply yields an endpoint only for six decimal fields <= 255 (sound + complete), "
+        "port = p1*256+p2 never wrapped; PORT/EPRT arguments decode (server-side reference decoder) to exactly the given address and port for "
+        "all addresses/ports; PORT refuses non-IPv4. Correspondence: all 65536 ports both directions, all (p1,p2) in [0,300]^2, all delimiter "
+        "bytes, single-character edits, random surrounding text (pure part; the connect-target / listen-endpoint part is the client-level stage).",
+   note="That the kernel connects where connect() is told, and address <-> text conversion (inet_ntop/pton), are trusted.", ref="DESIGN.md section 7 C06"),
+ "C19": dict(
+   text="Theorems: the comparison chain recognises exactly the 27 documented pairs (decide); a token is accepted as command c iff it equals "
+        "c's name up to ASCII case (all tokens); totality by type; round trip for every verb variant and every list of arbitrary byte strings "
+        "rendered with quotes/escapes and white-space separators (induction over the list). Correspondence: real parse_command on all case "
+        "variants, all single edits, all lines over a 7-letter alphabet up to a bound, random full-range lines; exception type classified.",
+   note="std::istringstream >> / std::quoted / boost::iequals contracts are transcribed by hand (libstdc++ 12, C locale) and exercised.", ref="DESIGN.md section 7 C19"),
 }
 PENDING = "check not built yet (work in progress; see DESIGN.md section 12)"
 
